@@ -134,6 +134,15 @@ def generate(rng, index, tier):
             a, b = rng.sample(range(len(threads)), 2)
             born = [op['ops'][0]['a'][0] for op in threads[b]['ops'] if op.get('k') == 'seq' and op['ops'] and op['ops'][0].get('name') == 'TRACE_DATA_NEWTHREAD']
             r3 = rng.random()
+            if rng.chance(0.12):
+                # thread a's sample describes thread b (its thread-info record names b) and its user stack is flagged deferred;
+                # b is sampled, completely, later on
+                rows_ = [[rng.randrange(1, 1 << 40) for _w in range(4)]]
+                threads[a]['ops'].insert(rng.randrange(len(threads[a]['ops']) + 1),
+                                         worlds.op_sample(rng, flags=rng.pick([9, 9, 0xb]), thd=(74000 + rng.randrange(9), threads[b]['tid']),
+                                                          uhdr=(rng.pick([2, 3, 0x12, 0x102]), rng.pick([4, 2, 0])), udata=rows_))
+                threads[b]['ops'].append(worlds.op_sample(rng, flags=8, thd=None, uhdr=(rng.pick([0, 1, 4]), 3), udata=[[rng.randrange(1, 1 << 40) for _w in range(4)]]))
+                continue
             if r3 >= 0.82:
                 ids_ = worlds.catalog()['ids']
                 if r3 < 0.91:
@@ -211,13 +220,14 @@ def _core_names():
     return _core
 
 
-def _run(table, stream, init_tp=None):
+def _run(table, stream, init_tp=None, final=True):
     """Feed a stream to a fresh parser; returns (per-tid list of [type, origins, text], pids_names, threads_pids)."""
     tp, pn = dict(init_tp or {}), {}
     parser = tool.tp_mod.TracesParser(table, tp, pn)
     events = worlds.kevents_of(stream)
     origin = {id(e): r['o'] for e, r in zip(events, stream)}
     out = {}
+    kept = []
     for ev in events:
         t = parser.feed(ev)
         if t is None:
@@ -226,7 +236,13 @@ def _run(table, stream, init_tp=None):
         first = kt[0] if kt else ev
         # a thread-terminate record reads, by design, tables that other threads write: its text is not compared
         text = str(t) if type(t).__name__ != 'TraceDataThreadTerminate' else ''
-        out.setdefault(first.tid, []).append([type(t).__name__, [origin.get(id(e), '?') for e in kt], text])
+        entry = [type(t).__name__, [origin.get(id(e), '?') for e in kt], text]
+        out.setdefault(first.tid, []).append(entry)
+        kept.append((entry, t))
+    for entry, t in kept:
+        # what the caller still holds when the stream has ended is part of the result: the rendering and the record list then
+        if entry[0] != 'TraceDataThreadTerminate':
+            entry.append([str(t), [origin.get(id(e), '?') for e in t.ktraces]] if final else None)
     return out, pn, tp
 
 
@@ -276,6 +292,7 @@ def execute(scn):
         bump('probe:same_global_string_on_two_threads')
     if any(len(v) >= 2 for v in und.values()):
         bump('probe:undecoded_id_on_two_threads')
+    final_ = sum(len(p_) for p_ in per) <= 4000
     init_tp = {th['tid']: 4242 for th in scn['threads']} if scn.get('same_process') else None
     if init_tp:
         bump('probe:all_threads_one_process')
@@ -289,7 +306,7 @@ def execute(scn):
     for ti, p in enumerate(per):
         stream = kernel.merge([p], [])
         try:
-            out, pn, tp = _run(table, stream, init_tp)
+            out, pn, tp = _run(table, stream, init_tp, final_)
         except Exception as e:
             # a decoder that raises on a thread's own records is C07's subject, not an interleaving effect
             solo_failed = True
@@ -343,7 +360,7 @@ def execute(scn):
         if len(sw_ds) >= 2:
             bump('probe:switch_between_data_and_string_both_threads')
         try:
-            out, pn, tp = _run(table, stream, init_tp)
+            out, pn, tp = _run(table, stream, init_tp, final_)
         except Exception as e:
             from .common import exc_sig
             viols.append({'tag': 'merged-run-raises', 'sig': exc_sig(e),
